@@ -480,9 +480,21 @@ class SpaceEncoder(BaseEncoder):
         )
 
         self.cells_encoders = []
+        self.derived_cells_encoders = []    # Only to write input values
         for cells in self.space.cells.values():
             if cells._is_defined():
                 self.cells_encoders.append(
+                    CellsEncoder(
+                        writer,
+                        cells,
+                        parent=self.space,
+                        name=cells.name,
+                        srcpath=srcpath,
+                        datapath=self.datapath / cells.name
+                    )
+                )
+            elif cells._impl.input_keys:
+                self.derived_cells_encoders.append(
                     CellsEncoder(
                         writer,
                         cells,
@@ -549,7 +561,7 @@ class SpaceEncoder(BaseEncoder):
     def instruct(self):
         insts = []
         insts.append(self.refview_encoder.instruct())
-        for encoder in self.cells_encoders:
+        for encoder in self.cells_encoders + self.derived_cells_encoders:
             insts.append(encoder.instruct())
 
         insts.append(Instruction(self.pickle_dynamic_inputs))
@@ -909,7 +921,8 @@ class ModelReader:
         ])
         self.instructions.execute_selected_methods(["add_bases"])
         self.read_pickledata()
-        self.instructions.execute_selected_methods(["load_pickledata"])
+        self.instructions.execute_selected_methods(
+            ["load_pickledata", "_load_derived_cells_data"])
         self.instructions.execute_selected_methods(
             ["__setattr__", "set_ref"])
         self.instructions.execute_selected_methods(
@@ -929,11 +942,26 @@ class ModelReader:
             space = target.new_space(name=name)
             self.parse_source(path_ / name / "__init__.py", space)
             nextdir = path_ / name
+            self.instructions.append(Instruction(
+                self._load_derived_cells_data, (nextdir / "_data", space)))
             self._parse_dynamic_inputs(nextdir, space)
             if ziputil.exists(nextdir) and ziputil.is_dir(nextdir):
                 self.parse_dir(nextdir, target=space, spaces=self.result)
 
         return target
+
+    def _load_derived_cells_data(self, datapath, space):
+        """Load the input values of the derived cells in ``space``"""
+        if not ziputil.exists(datapath):
+            return
+        for name, cells in space.cells.items():
+            if cells._is_derived() and ziputil.exists(datapath / name):
+                lines = ziputil.read_file_utf8(
+                    lambda f: f.readlines(), datapath / name, "t")
+                for line in lines:
+                    keyid, valid = ast.literal_eval(line)
+                    cells._impl.set_value(
+                        self.pickledata[keyid], self.pickledata[valid])
 
     def _parse_dynamic_inputs(self, path_, static_parent):
 
